@@ -8,10 +8,11 @@ Tie: harness/run_itv.cc runs the real Interval<> operations on an exhaustive pal
 Facts re-read from the sources on every run: the interval policies the model fixes as constants."""
 import json, os, re
 import common
+import translate_float
 
 COQ_FILES = ["Itv/Boundary.v", "Itv/Interval.v", "Itv/QCarrier.v", "Itv/Sound.v", "Itv/Arith.v",
-             "Itv/Encl.v", "Itv/Sets.v", "Itv/Univ.v", "Itv/Exact.v", "Itv/Defect.v", "Itv/Api.v"]
-COQ_FILES = [f for f in COQ_FILES if os.path.exists(os.path.join(common.COQ, f))]
+             "Itv/Encl.v", "Itv/Sets.v", "Itv/Univ.v", "Itv/Exact.v", "Itv/Defect.v", "Itv/Api.v",
+             "Itv/LinForm.v", "Itv/RelErr.v", "gen/Facts_Float.v", "Itv/FloatErr.v"]
 
 SITES = {
     "mul": "Interval::mul_assign", "div": "Interval::div_assign", "add": "Interval::add_assign",
@@ -145,12 +146,12 @@ def classify(chk, ty, pal, tight, fails):
                            "%d cases, first: %s %d %d (%s palette %s): %s" % (len(left), f["op"], f["i"], f["j"], ty, pal, f["text"])))
 
 
-def build_harness():
-    """harness/run_itv.cc linked against the library built from the working tree.  Like common.compile_harness,
+def build_harness(name="run_itv"):
+    """harness/<name>.cc linked against the library built from the working tree.  Like common.compile_harness,
     but the link happens while holding the library lock and the executable is kept outside the library cache
     directory: a concurrent check working on another copy of the repo drops that directory at any time."""
     import hashlib
-    src = os.path.join(common.VERIF, "harness", "run_itv.cc")
+    src = os.path.join(common.VERIF, "harness", name + ".cc")
     keep = os.path.join(common.BUILD, "c12-bin")
     os.makedirs(keep, exist_ok=True)
     last = ""
@@ -161,12 +162,13 @@ def build_harness():
             if not os.path.exists(lib):
                 continue
             h = hashlib.sha256(open(src, "rb").read()).hexdigest()[:10]
-            mine = os.path.join(keep, "%s-run_itv_%s" % (os.path.basename(libdir), h))
+            mine = os.path.join(keep, "%s-%s_%s" % (os.path.basename(libdir), name, h))
             if os.path.exists(mine):
                 return mine
             for old in os.listdir(keep):
-                try: os.remove(os.path.join(keep, old))
-                except OSError: pass
+                if ("-" + name + "_") in old:
+                    try: os.remove(os.path.join(keep, old))
+                    except OSError: pass
             tmp = mine + ".tmp%d" % os.getpid()
             rc, out = common.sh(["g++"] + common.cxx_flags(libdir) + ["-I" + os.path.join(common.VERIF, "harness"),
                                  src, "-o", tmp, lib, "-lgmpxx", "-lgmp"], timeout=1800)
@@ -176,7 +178,44 @@ def build_harness():
             last = out
             if "No such file or directory" not in out:
                 break
-    raise common.BuildError("harness run_itv.cc failed to compile:\n" + last[-6000:])
+    raise common.BuildError("harness %s.cc failed to compile:\n" % name + last[-6000:])
+
+
+def run_lin(chk, hl, seed, ncases, only=None):
+    """Linear forms and linearize(): the harness is its own oracle (exact rationals); see harness/run_lin.cc."""
+    args = [hl, str(seed), str(ncases)] + ([str(only)] if only is not None else [])
+    rc, out = common.sh(args, timeout=1200)
+    if rc != 0:
+        chk.broken.append(("harness:run_lin", "exit %s: %s" % (rc, out[-500:])))
+        return
+    stats, groups = {}, {}
+    for l in out.splitlines():
+        p = l.split()
+        if l.startswith("S "):
+            stats[p[1]] = int(p[2])
+        elif l.startswith("F "):
+            kv = dict(t.split("=", 1) for t in p[2:] if "=" in t)
+            if p[1] == "LF":
+                key = ("LF", kv.get("op", "?"), kv.get("format", "-"))
+                site = "Linear_Form::" + kv.get("op", "?")
+            else:
+                key = (p[1], kv.get("fmt", "?"), kv.get("mode", "?"))
+                site = "linearize"
+            groups.setdefault((site,) + key, []).append((int(kv.get("case", "-1")), l))
+    n = stats.get("lin:evaluations", 0) + stats.get("lf:entry-checks", 0) + stats.get("lf:relative_error", 0) + stats.get("lf:intervalize", 0)
+    chk.count(n)
+    for k, v in stats.items():
+        if v > 0:
+            chk.nontrivial.add(("lin", k))
+    chk.extra.setdefault("histogram", {}).update({"linform/" + k: v for k, v in stats.items()})
+    chk.log("linear forms / linearize: %d linearized trees (%d reported failure), %d concrete evaluations, %d form-operator checks, %d failing groups"
+            % (stats.get("lin:linearized", 0), stats.get("lin:reported-failure", 0), stats.get("lin:evaluations", 0),
+               stats.get("lf:entry-checks", 0) + stats.get("lf:relative_error", 0) + stats.get("lf:intervalize", 0), len(groups)))
+    if not only and stats.get("lin:evaluations", 0) == 0:
+        chk.broken.append(("no-cases", "run_lin produced no concrete evaluation"))
+    for (site, kind, a, b), fs in sorted(groups.items()):
+        info = {"site": site, "kind": kind, "detail": "%s/%s" % (a, b), "class": "unsound", "cases_in_group": len(fs)}
+        chk.failure(info, {"harness": "run_lin", "seed": seed, "ncases": ncases, "case": fs[0][0], "text": fs[0][1]})
 
 
 def run(chk):
@@ -184,19 +223,35 @@ def run(chk):
                 "states (105 empty, 7 singletons, 28 half-unbounded, universe), ALL ordered pairs for each of 22 binary "
                 "operations (+ neg), for Rational_Interval, the Z_Box interval (integer closed bounds: 36 states) and the "
                 "Double_Box interval; plus seeded random intervals (p/q, |p|<=30). A case is counted as distinct "
-                "non-trivial per (type, operation, sign branch of the mul/div ladder or input class)")
+                "non-trivial per (type, operation, sign branch of the mul/div ladder or input class). "
+                "Linear forms / linearize(): seeded random expression trees (depth 1-4 over 3 variables: constants, integer "
+                "constants under a cast, references, unary minus, + - * /, casts between IEEE single and double), abstract "
+                "stores of intervals with double bounds (some open or half-unbounded), 8 concrete stores sampled inside "
+                "(ends, midpoints, points 2^-k away from an end), the tree evaluated by the machine in the analysed format "
+                "under each of the 4 rounding modes; random interval linear forms for the operators")
     chk.trusted += ["Coq 8.16.1 kernel; vm_compute in the two refutation witnesses; extraction (ExtrOcamlBasic) of the model "
                     "instantiated with the exact carrier; OCaml glue judge_itv.ml incl. its native-rational oracle; "
-                    "harness run_itv.cc (builds raw interval states through info()/lower()/upper())"]
+                    "harness run_itv.cc (builds raw interval states through info()/lower()/upper()); harness run_lin.cc (its own oracle: <cfenv> "
+                    "rounding modes of the host FPU as the analysed machine, exact mpq evaluation); tools/translate_float.py"]
     chk.assumptions += [
         "the model is a hand transcription of Boundary_defs.hh / Interval_defs.hh / Interval_inlines.hh for policies with "
         "store_special, may_contain_infinity=false, check_inexact=false (constants re-read from the sources each run); "
         "I_Result return codes are not modelled",
         "inexact carriers (mpz division, double): the rounding laws CarrierLaws are a hypothesis of the theorems, tied to the "
         "code only by the containment test against the exact model; overflow to infinity is not modelled",
+        "linearize() itself (linearize.hh) is NOT modelled in Coq: its soundness is only checked per run by the independent oracle "
+        "of harness/run_lin.cc (concrete machine evaluation under the four rounding modes vs exact evaluation of the returned "
+        "linear form); the Coq part covers the Linear_Form operators, intervalize, relative_error (additions of exact zeros "
+        "elided) and a rational model of rounding (a rounding returns a representable neighbour; no overflow; normal range)",
         "the floating point interval keeps infinities in the bound (store_special=false): compared through the abstraction "
         "bound is infinite <-> SPECIAL, except where the code reads a bound without its info word (oracle only)"]
     nfacts = check_facts(chk)
+    try:
+        # per-format constants and the exponent expressions of relative_error / compute_absolute_error,
+        # re-read from the sources into coq/gen/Facts_Float.v (Itv/FloatErr.v is proved against them)
+        nfacts += translate_float.generate()
+    except Exception as e:
+        chk.broken.append(("fact:float-formats", "tools/translate_float.py: %s" % e))
     chk.prove(COQ_FILES, extra_obligations=nfacts if not [b for b in chk.broken if b[0].startswith("fact:")] else 0)
     if any(b[0].startswith("fact:") for b in chk.broken):
         chk.obligations += nfacts
@@ -205,8 +260,12 @@ def run(chk):
     judge = common.ocaml_build("judge_itv", ["gen/itv.mli", "gen/itv.ml", "judge_itv.ml"])
     hx = build_harness()
 
+    hl = build_harness("run_lin")
     if chk.replay:
         obj = json.load(open(chk.replay))
+        if obj.get("harness") == "run_lin":
+            run_lin(chk, hl, obj["seed"], obj["ncases"], obj["case"])
+            return
         n, hist, fails = run_batch(chk, hx, judge, obj["type"], obj["palette"], obj.get("tight", True), obj["cases"])
         chk.count(n)
         classify(chk, obj["type"], obj["palette"], obj.get("tight", True), fails)
@@ -241,6 +300,7 @@ def run(chk):
         if n == 0:
             chk.broken.append(("no-cases", "%s %s produced no cases" % (ty, pal)))
         classify(chk, ty, pal, tight, fails)
+    run_lin(chk, hl, chk.seed, 40000 if chk.quick else 600000)
     chk.samples.append({"type": "Q", "op": "mul", "x": "(-1,3]", "y": "[-3,1)", "real": "[-9,3)",
                         "note": "branch 9, second candidate chosen with a different flag (wrong before ed6ee8d); corpus/C12/witnesses.json"})
-    chk.extra["histogram"] = total_hist
+    chk.extra.setdefault("histogram", {}).update(total_hist)
